@@ -316,7 +316,17 @@ def eval_comprehension(interp, node, frame, kind):
     if len(node.generators) != 1 or node.generators[0].is_async:
         raise Unsupported("nested comprehension")
     gen = node.generators[0]
-    it = _iterable(interp, interp.eval(gen.iter, frame))
+    it0 = interp.eval(gen.iter, frame)
+    from .trusted import OctetTuple, HexPairs
+    if isinstance(it0, OctetTuple):
+        # ["%02x" % byte for byte in <octets of data>]  -- trusted composite: two hex digits per octet
+        e = node.elt
+        if (kind == "list" and not gen.ifs and isinstance(e, ast.BinOp) and isinstance(e.op, ast.Mod)
+                and isinstance(e.left, ast.Constant) and e.left.value == "%02x"
+                and isinstance(e.right, ast.Name) and isinstance(gen.target, ast.Name) and e.right.id == gen.target.id):
+            return HexPairs(it0.data)
+        raise Unsupported("comprehension over the octets of symbolic data")
+    it = _iterable(interp, it0)
     items = concrete_items(interp, it)
     if kind == "dict":
         elt_fn = lambda fr: (interp.eval(node.key, fr), interp.eval(node.value, fr))
